@@ -52,7 +52,8 @@ from lib.core import exc_name
 
 ID = "C19"
 AUDIT_IMPORTS = ["HypatiaProofs.Properties.C19", "HypatiaProofs.Properties.C19Index",
-                 "HypatiaProofs.Properties.C19Text", "HypatiaProofs.Properties.C19TextFull"]
+                 "HypatiaProofs.Properties.C19Text", "HypatiaProofs.Properties.C19TextFull",
+                 "HypatiaProofs.Properties.C19Facet"]
 THEOREMS = ["Hyp.Concurrency." + t for t in (
     "c19_conflict_no_trace", "c19_both_visible_serial", "c19_mergeKey_cases", "c19_merge_is_serial",
     "c19_length_merge", "c19_write_skew_needs_rw")] + ["Hyp.CIdx." + t for t in (
@@ -68,7 +69,11 @@ THEOREMS = ["Hyp.Concurrency." + t for t in (
     # text index: conflict or serial in full (Properties/C19TextFull.lean)
     "c19_text_init", "c19_text_txn_refines", "c19_text_reachable_base", "c19_text_conflict_or_serial",
     "c19_text_serial_refines", "c19_text_observable", "c19_text_merged_observes_serial", "c19_text_freq_ok",
-    "tframe_run", "tmerged_inv")]
+    "tframe_run", "tmerged_inv",
+    # facet index: conflict or serial in full (Properties/C19Facet.lean)
+    "c19_facet_txn_refines", "c19_facet_reachable_base", "c19_facet_conflict_or_serial",
+    "c19_facet_serial_refines", "c19_facet_merged_observes_serial", "c19_facet_paths_conflict_or_serial",
+    "c19_facet_counts_serial", "facetRun_spec", "pfacetIndexDoc_inv")]
 CASES = {"quick": 640, "thorough": 12000}
 BUDGET_S = {"quick": 50, "thorough": 800}
 BATCH = 10
@@ -95,11 +100,15 @@ LEVEL_TEXT = ("Lean 4: (1) generic optimistic commit with three-way merges: merg
               "are a plain dict stored in the bucket or a reference to an IFBTree from DICT_CUTOFF members on, "
               "_docwords, _docweight, three Lengths) with read/write footprints and BTrees' rules (per-key merge, "
               "conflict when both changed a key, when the committed or new state is empty, when the merged one "
-              "would be). Field index, keyword index (repaired code, any tree_threshold) and text index (Okapi and "
-              "cosine, any DICT_CUTOFF), for all bases satisfying the object-level C01 / C02 / C03+C06 invariant "
-              "and all operation lists on disjoint docids: the second commit conflicts or the merged heap "
-              "satisfies the invariant for the serial table (c19_field_/keyword_/text_conflict_or_serial; "
-              "queries, counts, statistics, document words = serial). Text-specific: two transactions that both "
+              "would be). Field index, keyword index (repaired code, any tree_threshold), facet index (any configured "
+              "facet list; its index_doc never replaces a posting object, so no threshold hypothesis) and text "
+              "index (Okapi and cosine, any DICT_CUTOFF), for all bases satisfying the object-level C01 / C02 / "
+              "C13 / C03+C06 invariant and all operation lists on disjoint docids: the second commit conflicts or "
+              "the merged heap satisfies the invariant for the serial table "
+              "(c19_field_/keyword_/facet_/text_conflict_or_serial; queries, counts, statistics, document words = "
+              "serial; for the facet index also in C13's vocabulary - calls with paths, prefix expansion, FInv for "
+              "the serial facet table, counts(docids, omit_facets) of the stored index = of the serially built one "
+              "= C13's specification: c19_facet_paths_conflict_or_serial, c19_facet_counts_serial). Text-specific: two transactions that both "
               "add a word to the lexicon always conflict (same _words key), both changing a dict-valued posting "
               "conflict, the dict -> IFBTree switch against a dict update conflicts, an IFBTree posting changed at "
               "different docids merges. D20 as theorems: the unrepaired replacement merges and loses the update "
@@ -110,8 +119,10 @@ LEVEL_NOTE = ("partial: thread scheduling, MVCC, storage and the real conflict-r
               "(trusted, sampled; the model's merge rules are a subset of BTrees' refusals, checked in the "
               "direction real success => model success - e.g. real BTrees refuse every doubly written _wordinfo "
               "bucket that holds a dict-valued key because dicts are not orderable); the conflict-or-serial "
-              "theorem is proved for the field, the keyword and the text index; facet index: object model and "
-              "runs only")
+              "theorem is proved for all four index types - field, keyword, facet and text (both back ends); its "
+              "hypotheses are the object-level refinement invariant of the base, transaction identities that own "
+              "no object of the base, and disjoint docids; the object models themselves are hand-written from the "
+              "code and tied to it by the runs")
 TECHNIQUE = "Lean 4 proof about the three-way-merge abstraction + two-connection differential run on a real FileStorage"
 
 c09 = importlib.import_module("props.c09")
